@@ -904,4 +904,82 @@ theorem longOk_length {b : List Nat} {first V : Nat} {d s r3 : List Nat} {k : Na
     refine ⟨k, off, off + len, hk7, by omega, by omega, hle, hnext, ?_, Or.inr (Or.inr rfl)⟩
     rw [Nat.add_sub_cancel_left]; exact hdec
 
+theorem bytesOk_of_all (b : List Nat) (h : b.all (· < 256) = true) : BytesOk b := by
+  intro x hx
+  have := List.all_eq_true.mp h x hx
+  simpa using this
+
+/-- the shape of an input on which the RFC 8999 invariants parse -/
+theorem invariants_some_inv {b : List Nat} {first V : Nat} {d s body : List Nat}
+    (h : invariants b = some (first, V, d, s, body)) :
+    ∃ v0 v1 v2 v3 r1 r2, b = first :: v0 :: v1 :: v2 :: v3 :: r1 ∧ first / 128 % 2 = 1 ∧
+      V = ((v0 * 256 + v1) * 256 + v2) * 256 + v3 ∧ cid? r1 = some (d, r2) ∧ cid? r2 = some (s, body) := by
+  match b, h with
+  | [], h => simp [invariants] at h
+  | f :: t, h =>
+    by_cases hform : f / 128 % 2 = 1
+    · by_cases ht : t.length < 4
+      · simp only [invariants, hform, if_true, u32?_short t ht] at h
+        simp at h
+      · match t, ht, h with
+        | [], ht, _ => exact absurd (by simp) ht
+        | [_], ht, _ => exact absurd (by simp) ht
+        | [_, _], ht, _ => exact absurd (by simp) ht
+        | [_, _, _], ht, _ => exact absurd (by simp) ht
+        | v0 :: v1 :: v2 :: v3 :: r1, _, h =>
+          rw [invariants_cons5 _ _ _ _ _ _ hform] at h
+          cases h1 : cid? r1 with
+          | none => rw [h1] at h; simp at h
+          | some x1 =>
+            obtain ⟨d', r2⟩ := x1
+            rw [h1] at h
+            simp only [] at h
+            cases h2 : cid? r2 with
+            | none => rw [h2] at h; simp at h
+            | some x2 =>
+              obtain ⟨s', r3⟩ := x2
+              rw [h2] at h
+              simp only [Option.some.injEq, Prod.mk.injEq] at h
+              obtain ⟨e1, e2, e3, e4, e5⟩ := h
+              subst e1; subst e3; subst e4; subst e5
+              exact ⟨v0, v1, v2, v3, r1, r2, rfl, hform, e2.symm, h1, h2⟩
+    · simp only [invariants, hform, if_false] at h
+      simp at h
+
+/-- `ProtectedInitial::decode` can only fail with `UnexpectedEof` -/
+theorem decodeInitial_error_eof {version : Nat} {b : List Nat} {first v0 v1 v2 v3 : Nat} {r1 : List Nat}
+    (hb : BytesOk b) (hbdef : b = first :: v0 :: v1 :: v2 :: v3 :: r1) {e : Err}
+    (h : decodeInitial version b = .error e) : e = .eof := by
+  rw [decodeInitial_eq version first v0 v1 v2 v3 r1 hb hbdef] at h
+  cases h1 : cid? r1 with
+  | none => rw [h1] at h; simp at h; exact h.symm
+  | some x1 =>
+    obtain ⟨d, r2⟩ := x1
+    rw [h1] at h
+    simp only [] at h
+    cases h2 : cid? r2 with
+    | none => rw [h2] at h; simp at h; exact h.symm
+    | some x2 =>
+      obtain ⟨s, r3⟩ := x2
+      rw [h2] at h
+      simp only [] at h
+      cases h3 : Rfc.VarInt.parse r3 with
+      | none => rw [h3] at h; simp at h; exact h.symm
+      | some x3 =>
+        obtain ⟨tl, r4⟩ := x3
+        rw [h3] at h
+        simp only [] at h
+        cases h4 : take? tl r4 with
+        | none => rw [h4] at h; simp at h; exact h.symm
+        | some x4 =>
+          obtain ⟨tok, r5⟩ := x4
+          rw [h4] at h
+          simp only [] at h
+          cases h5 : lengthAndProtected b.length r5 with
+          | none => rw [h5] at h; simp at h; exact h.symm
+          | some x5 =>
+            obtain ⟨⟨off, len⟩, next⟩ := x5
+            rw [h5] at h
+            simp at h
+
 end Quic.Proofs.PacketHeader
